@@ -413,8 +413,32 @@ impl Op {
 /// panics with an add overflow after 2^31 steps (overflow checks on). Such
 /// polygons are reported from this predicate, without running the iterator,
 /// to keep the check's run time bounded.
+///
+/// Whether the iterator really behaves like that is observed once per process
+/// by `fill_iter_zero_width_hangs` on the smallest such polygon (one row).
 fn zero_width_with_vertical_extent(pts: &[(i32, i32)]) -> bool {
     pts.len() >= 2 && pts.iter().all(|p| p.1 == pts[0].1) && pts.iter().any(|p| p.0 != pts[0].0)
+}
+
+static ZERO_WIDTH_HANGS: std::sync::OnceLock<bool> = std::sync::OnceLock::new();
+
+/// Probe: `Polygon::fill_iter` on the one-row zero-width polygon (0,0)-(1,0).
+/// A correct iterator answers `None` after a handful of steps; the defective
+/// one needs 2^32 cursor steps (seconds of CPU) or panics on i32 overflow.
+/// This is the only place the check reads a clock: the *CPU time of this
+/// thread*, with a threshold (0.2 s) six orders of magnitude above the
+/// correct behaviour and an order of magnitude below the defective one. The
+/// result only decides whether zero-width polygons are executed or reported
+/// as the (known) hang without executing them.
+fn fill_iter_zero_width_hangs() -> bool {
+    *ZERO_WIDTH_HANGS.get_or_init(|| {
+        vc_imageproc::own_panics_only();
+        let pts = [Point::from_yx(0, 0), Point::from_yx(1, 0)];
+        let t0 = vc_imageproc::thread_cpu_seconds();
+        let r = vcore::catch(|| Polygon::new(&pts[..]).fill_iter().next());
+        let dt = vc_imageproc::thread_cpu_seconds() - t0;
+        r.is_err() || dt > 0.2
+    })
 }
 
 /// The polygon `draw_line` fills for a line of width >= 2, computed through
@@ -454,7 +478,7 @@ struct FillCase {
 fn check_fill_iter(c: &FillCase) -> Verdict {
     vc_imageproc::own_panics_only();
     let ipts: Vec<(i32, i32)> = c.pts.iter().map(|p| (p.0 as i32, p.1 as i32)).collect();
-    if zero_width_with_vertical_extent(&ipts) {
+    if zero_width_with_vertical_extent(&ipts) && fill_iter_zero_width_hangs() {
         return Verdict::fail(
             "fill_iter:zero-width-polygon-hang",
             format!("Polygon::fill_iter on {:?} (y,x): zero horizontal extent with a non-horizontal edge: the iterator never reaches the end of a row", c.pts),
@@ -512,7 +536,7 @@ fn check_draw(c: &DrawCase) -> Verdict {
         Op::Painter { .. } => 3,
         _ => 1,
     };
-    if let Some(poly) = c.op.hits_fill_iter_hang() {
+    if let Some(poly) = c.op.hits_fill_iter_hang().filter(|_| fill_iter_zero_width_hangs()) {
         return Verdict::fail(
             format!("draw:{name}:fill-iter-zero-width-polygon-hang"),
             format!(
@@ -676,7 +700,7 @@ fn main() {
     let mut ck = Check::new("C36");
     ck.rule(
         "Contours: `contours-exhaustive` = every mask of every size h,w in 0..=4 (quick) / 0..=5 (thorough) x {List, External} x \
-         {plain tensor, view embedded in an all-foreground tensor}; `contours-random` = masks of size 0..=24 per side with i.i.d. \
+         {plain tensor, view embedded in an all-foreground tensor} (5x5: plain tensor only); `contours-random` = masks of size 0..=24 per side with i.i.d. \
          pixels at density 0.1/0.3/0.5/0.7/0.9; `contours-structured` = 1..=6 shapes (filled rect, ring of thickness 1..3, up to 5 \
          nested 1-pixel rings with gap 0..2, diamond outline, dot, erase-rect) at positions -3..=24 (clipped by the border) on a \
          1..=24 square-ish image plus up to 6 toggled pixels. Non-trivial = at least one foreground pixel. \
@@ -686,7 +710,7 @@ fn main() {
          the call changed a pixel or the dilated shape is not entirely on the image. `fill-iter` = Polygon::fill_iter on 0..=6 vertices \
          in [-30,60] or [0,8]: every yielded pixel lies in the vertices' bounding box, no pixel twice, at most box-area pixels; \
          non-trivial = yields a pixel. Polygons with zero horizontal extent and a non-horizontal edge (also as the stroke polygon of a \
-         wide line) are reported without running the iterator, which would spin 2^32 steps per row. Distinct = distinct Debug rendering.",
+         wide line) are reported without running the iterator when a one-row probe shows that it spins 2^32 steps per row. Distinct = distinct Debug rendering.",
     );
     ck.assume("foreground is 8-connected and background 4-connected, as in the Suzuki-Abe algorithm the source cites; 'adjacent to the background' is tested on the 8-neighbourhood");
     ck.assume("a component is 'enclosed' when none of its pixels is 4-adjacent to background that is 4-connected to the outside of the image");
@@ -697,14 +721,23 @@ fn main() {
     // storage offset. A signal is not a plausible outcome; cases are many.
     ck.set_slots(false);
 
-    // exhaustive masks
+    let hangs = fill_iter_zero_width_hangs();
+    println!(
+        "probe: Polygon::fill_iter on the zero-width polygon (0,0)-(1,0) {}",
+        if hangs { "spins / overflows: zero-width polygons are reported without being executed" } else { "terminates immediately: zero-width polygons are executed" }
+    );
+    ck.extra("fill_iter_zero_width_probe_hangs", vcore::serde_json::json!(hangs));
+
+    // exhaustive masks: 4 variants (mode x embedding) per mask; the 2^25 masks of
+    // 5x5 (thorough) only as plain tensors in both modes
+    let variants = |h: usize, w: usize| -> u64 { if h * w > 20 { 2 } else { 4 } };
     let max_side: usize = ck.pick(4, 5) as usize;
     let mut table: Vec<(usize, usize, u64)> = Vec::new(); // (h, w, first index)
     let mut total: u64 = 0;
     for h in 0..=max_side {
         for w in 0..=max_side {
             table.push((h, w, total));
-            total += 4u64 << (h * w);
+            total += variants(h, w) << (h * w);
         }
     }
     ck.enumerate_par(
@@ -715,7 +748,8 @@ fn main() {
             let k = table.partition_point(|e| e.2 <= i) - 1;
             let (h, w, base) = table[k];
             let j = i - base;
-            let (variant, bits) = (j & 3, j >> 2);
+            let v = variants(h, w);
+            let (variant, bits) = (j % v, j / v);
             let mut m = Mask::new(h, w);
             for p in 0..h * w {
                 m.px[p] = bits >> p & 1 == 1;
